@@ -15,9 +15,16 @@ PROP = {
              "thorough), sampled corruptions of large frames, length-field attacks (0,1,63,64,65,8MiB-1,8MiB,8MiB+1,2^31,2^32-1 x "
              "available bytes), random bytes; compared: ok/eof/unexpected-eof/err, nonce, payload, bytes consumed. (c) "
              "handleIncomingPackets over an in-memory net.Conn: 1..5 frames, segmentations, one corrupted or truncated frame. "
-             "(d) Packet.marshal with chosen nonce. Oracles on the implementation: valid frames delivered intact, altered frames "
+             "(d) Packet.marshal with chosen nonce. (e) several goroutines on ONE Connection through the real Connection.Send: "
+             "deterministic - a transport that holds the first Write until a second Write has gone through (or 100 ms) while a second "
+             "goroutine sends 1..3 packets; wire bytes and the order of XORKeyStream / Write calls are compared with the model's "
+             "lock / encrypt / write / unlock transition system run on a schedule that contains the blocked attempts; over TCP - 2..8 "
+             "goroutines x 1..4 packets of mixed sizes through the real handshake to the reference server, which reads every byte and "
+             "decodes; per-sender payload sequences compared with the model run on a random schedule of sender steps; load runs "
+             "(8x40x2 KiB, 4x60x512 B; thorough also 8x150x16 KiB, 8x100x8 KiB, 3x300x64 B). Oracles on the implementation: valid frames delivered intact, altered frames "
              "never delivered, truncation ends in EOF, receive loop delivers exactly the intact prefix, both session directions "
-             "in order and intact, reference server completes the handshake, 8 MiB-64 round-trips and 8 MiB-63 is rejected "
+             "in order and intact, reference server completes the handshake, concurrent senders: the server decodes exactly N*K intact frames, per "
+             "sender in order, encrypt and write calls alternate strictly, 8 MiB-64 round-trips and 8 MiB-63 is rejected "
              "(thorough). A class is (stream, segmentation / position / length bucket, size bucket, outcome)."),
     'explanation': ("coq/Properties/C11.v, for every hash with 32-byte output, every deterministic keystream generator and every key "
                     "agreement with dh a (pub b) = dh b (pub a): the specification server accepts the client's handshake, recovers the "
@@ -25,13 +32,17 @@ PROP = {
                     "and intact under every segmentation with cipher states aligned after each packet (both directions, whole "
                     "session); altering nonce|payload or the checksum (any single byte/bit) gives a checksum error or exhibits "
                     "x<>x' with H x = H x'; an altered length field can only deliver a payload of another size; lengths outside "
-                    "64..8 MiB are rejected after 4 bytes; truncation delivers the intact prefix and ends in EOF. "
+                    "64..8 MiB are rejected after 4 bytes; truncation delivers the intact prefix and ends in EOF; for every number of "
+                    "senders and every schedule of their lock / encrypt / write / unlock steps admitted by the connection mutex the "
+                    "wire is send_all of the packets in lock-acquisition order (per-sender order preserved), and the variant that "
+                    "unlocks before encrypt/write is refuted by a two-sender witness. "
                     "coq/Properties/C11_gen.v re-checks params offsets 0/32/64/80/96/160, the key-id tag, the ParsePacket bounds and "
                     "operators, marshal/parse/handshake slice bounds and the cipher wiring translated from today's source."),
     'assumptions': ["SHA-256, AES-CTR and X25519 are parameters of the theorems (Section variables); corruption detection is reduced to an exhibited SHA-256 coincidence, not excluded",
                     "AES/X25519/Ed25519 correctness is trusted to the Go libraries (oracle columns); the Gallina SHA-256 is checked against crypto/sha256 by every compared frame",
                     "a modification that rewrites payload AND checksum consistently is accepted by design of the protocol (checksum, not MAC); the theorems cover alterations confined to one of the two regions and the length field",
-                    "TCP timing, bufio internals, goroutines and reconnect/ping logic of Connection are runtime; the reader is modelled as the list of segments"],
+                    "TCP timing, bufio internals and reconnect/ping logic of Connection are runtime; the reader is modelled as the list of segments",
+                    "goroutines calling Connection.Send are modelled as an interleaving transition system with an atomic mutex; XORKeyStream and Write are atomic steps (a data race inside XORKeyStream is not modelled, the load runs exercise it)"],
 }
 
 META = {
@@ -43,8 +54,10 @@ META = {
              "into TCP segments, the two cipher states staying equal after every packet (both directions and the whole session); any "
              "alteration of nonce|payload or of the checksum, in particular any single byte or bit, is rejected or exhibits a SHA-256 "
              "collision; an altered length is rejected, runs into EOF or can only yield a payload of a different size; truncation never "
-             "yields a wrong payload. The extracted model is run against the real client (loopback TCP session with a reference server, "
-             "deterministic crypto/rand) and against ParsePacket / the receive loop on corrupted, truncated and re-segmented streams; "
+             "yields a wrong payload; several senders on one connection, in every interleaving admitted by the connection mutex, "
+             "put exactly send_all of their packets in lock order on the wire (unlock-before-write variant refuted). The extracted model is run against the real client (loopback TCP session with a reference server, "
+             "deterministic crypto/rand; also 2..8 goroutines sending concurrently through the real Connection.Send, and a "
+             "transport that holds one Write to let a second sender overtake) and against ParsePacket / the receive loop on corrupted, truncated and re-segmented streams; "
              "constants and slice bounds are re-translated from the source and checked by vm_compute."),
     'design_ref': 'DESIGN.md §6 C11',
     'note': ("Trusted: Coq kernel, extraction, drivers, Go harness incl. its reference server, Go crypto libraries (AES-CTR keystreams and "
